@@ -2,6 +2,7 @@
 from __future__ import annotations
 
 import random
+import re
 from typing import Any
 
 PY_FULL = ["2.7.18", "3.6.15", "3.7.0", "3.8.0", "3.8.10", "3.9.1", "3.9.18", "3.10.0", "3.10.12", "3.11.4", "3.12.0", "3.13.1", "4.0.0"]
@@ -200,7 +201,9 @@ def python_leaf_universe() -> list[str]:
                 continue
             out.append(f'python_full_version {op} "{lit}"')
     out += ['python_version in "3.8 3.9"', 'python_version not in "3.9 3.10"', 'python_full_version in "3.9.0 3.9.1"',
-            'python_full_version not in "3.10.0"']
+            'python_full_version not in "3.10.0"',
+            # two-component tokens in a python_full_version list stand for the release series (regression of d9aa4ee)
+            'python_full_version not in "3.9"', 'python_full_version in "3.9"', 'python_full_version in "3.8 3.10.0"']
     return out
 
 
@@ -226,6 +229,93 @@ def same_variable_pairs(rnd: random.Random, n: int | None = None) -> list[tuple[
     core = [(a, b) for a in pu for b in pu if a.startswith("python_version") and b.startswith("python_version")]
     core += [(a, b) for a in su for b in su if same(a, b)]
     rest = [(a, b) for a in pu for b in pu if not (a.startswith("python_version") and b.startswith("python_version"))]
+    if n is not None and n < len(rest):
+        rest = rnd.sample(rest, n)
+    return core + rest
+
+
+# ------------------------------------------------------------------ call histories
+_LEAF_RE = re.compile(r"""(python_version|python_full_version)\s*(==|!=|>=|<=|<|>|not in|in)\s*(["'])([^"']*)\3""")
+
+
+def _minor_shift(lit: str, d: int) -> str | None:
+    p = lit.split(".")
+    if len(p) != 2 or not all(x.isdigit() for x in p) or int(p[1]) + d < 0:
+        return None
+    return f"{p[0]}.{int(p[1]) + d}"
+
+
+def respell(rnd: random.Random, text: str) -> str:
+    """the same marker written differently, leaf by leaf: `python_version == "X"` <-> `in "X"`, `!=` <-> `not in`,
+    list tokens reordered / re-separated, `>= "3.8"` <-> `> "3.7"`, `< "3.9"` <-> `<= "3.8"` (python_version only),
+    quote style.  Equal meaning, different object: what a memo keyed too coarsely (or compared by identity) confuses."""
+    def sub(mo: re.Match[str]) -> str:
+        name, op, qq, lit = mo.group(1), mo.group(2), mo.group(3), mo.group(4)
+        toks = [t for t in re.split(r"[\s,|]+", lit) if t]
+        r = rnd.random()
+        if r < 0.25:
+            qq = "'" if qq == '"' else '"'
+        elif op in ("==", "!=") and len(toks) == 1 and r < 0.8:
+            op = "in" if op == "==" else "not in"
+        elif op in ("in", "not in") and len(toks) == 1 and r < 0.8:
+            op = "==" if op == "in" else "!="
+        elif op in ("in", "not in") and len(toks) > 1:
+            rnd.shuffle(toks)
+            lit = rnd.choice([" ", ", ", "|", ","]).join(toks)
+        elif name == "python_version" and op in (">=", ">", "<", "<=") and r < 0.9:
+            alt = {">=": (">", -1), ">": (">=", 1), "<": ("<=", -1), "<=": ("<", 1)}[op]
+            sh = _minor_shift(lit, alt[1])
+            if sh is not None:
+                op, lit = alt[0], sh
+        return f"{name} {op} {qq}{lit}{qq}"
+    return _LEAF_RE.sub(sub, text)
+
+
+def history_items(rnd: random.Random, n: int) -> list[tuple[str, str | None]]:
+    """groups of operand pairs to be run one after the other WITHOUT resetting anything in between: a pair, the same pair
+    respelled (equal meaning, different leaves), the operands exchanged, the pair again.  The model is a pure function of
+    each pair, so a result that depends on what was computed before shows up as a disagreement with it."""
+    pu = python_leaf_universe()
+    out: list[tuple[str, str | None]] = []
+    while len(out) < n:
+        k = rnd.random()
+        if k < 0.5:
+            a = rnd.choice(pu)
+            b = rnd.choice(pu)
+        elif k < 0.75:
+            a = leaf(rnd, python_only=True)
+            b = marker(rnd, max_leaves=2, python_only=True)
+        else:
+            a = marker(rnd, max_leaves=3)
+            b = marker(rnd, max_leaves=2)
+        out += [(a, b), (respell(rnd, a), b), (respell(rnd, a), respell(rnd, b)), (b, a), (a, b)]
+    return out[:n]
+
+
+def python_list_leaves() -> list[str]:
+    """`in` / `not in` list clauses over every 1-3-element subset of four adjacent minors (plus a few full versions)"""
+    import itertools
+    minors = ["3.7", "3.8", "3.9", "3.10"]
+    out = []
+    for k in (1, 2, 3):
+        for sub in itertools.combinations(minors, k):
+            for op in ("in", "not in"):
+                out.append(f'python_version {op} "{" ".join(sub)}"')
+    out += ['python_full_version in "3.8.1 3.9.0"', 'python_full_version not in "3.8.1 3.9.0"', 'python_full_version in "3.9.0"',
+            'python_full_version not in "3.10.0 3.7.3"']
+    return out
+
+
+def python_list_conjunctions(rnd: random.Random, n: int | None = None) -> list[str]:
+    """two (or three) list clauses on the python version in ONE conjunction / disjunction, in both orders — the shapes the
+    same-variable merge of parse_marker leaves alone only in part, so both the merged and the unmerged path of
+    marker -> python range conversion are walked.  `n` = sample size of the remainder (None = everything)."""
+    ll = python_list_leaves()
+    core = [f"{a} and {b}" for a in ll for b in ll if (" not in " in a) != (" not in " in b)]
+    rest = [f"{a} {op} {b}" for a in ll for b in ll for op in ("and", "or") if not (op == "and" and (" not in " in a) != (" not in " in b))]
+    cmp_ = ['python_version >= "3.8"', 'python_version < "3.10"', 'python_full_version >= "3.8.1"', 'python_version != "3.9"', 'sys_platform == "linux"']
+    rest += [f"{a} and {b} and {c}" for a in ll[::3] for b in ll[1::3] for c in cmp_]
+    rest += [f"{a} and {c} and {b}" for a in ll[::4] for b in ll[2::4] for c in cmp_]
     if n is not None and n < len(rest):
         rest = rnd.sample(rest, n)
     return core + rest
